@@ -30,7 +30,7 @@ ParseKinds == {"badobj", "badtag", "unknowntag", "strayend", "strayclause", "bad
 \* (subfail: a tag registered by the embedding program whose work fails in ANOTHER template - it hands back that render's
 \* located error, wrapped; extfail: one that reports through Context.Errorf)
 RenderKinds == {"filtererr", "converr", "dateerr", "argerr", "nofilter", "strict", "nofile", "incarg", "ifcond", "forcoll", "casesubj", "assignerr", "whenerr", "captureinner",
-                "subfail", "extfail", "typedarg"}
+                "subfail", "extfail", "typedarg", "optarg1", "optarg2", "optarg3"}
 DivZero == [t |-> "filter", e |-> Lit(IntV(1)), name |-> "divided_by", args |-> <<Lit(IntV(0))>>]
 Bad(k) ==
   CASE k \in ParseKinds -> [t |-> k]
@@ -39,6 +39,10 @@ Bad(k) ==
     \* other conversions that fail: a text that is no date; a non-numeric argument
     [] k = "dateerr" -> Ob([t |-> "filter", e |-> Lit(Str(<<115, 111, 111, 110>>)), name |-> "date", args |-> <<Lit(Str(<<37, 89>>))>>])
     [] k = "argerr" -> Ob([t |-> "filter", e |-> Lit(IntV(1)), name |-> "plus", args |-> <<Lit(Str(<<113>>))>>])
+    \* ... also where the argument is one the filter may be used without (round, truncate, the length of a slice)
+    [] k = "optarg1" -> Ob([t |-> "filter", e |-> Lit(Flt(5, 4)), name |-> "round", args |-> <<Lit(Str(<<113>>))>>])
+    [] k = "optarg2" -> Ob([t |-> "filter", e |-> Lit(Str(<<97, 98, 99>>)), name |-> "truncate", args |-> <<Lit(Str(<<113>>))>>])
+    [] k = "optarg3" -> Ob([t |-> "filter", e |-> Lit(Str(<<97, 98, 99>>)), name |-> "slice", args |-> <<Lit(IntV(1)), Lit(Str(<<113>>))>>])
     [] k = "nofilter" -> Ob([t |-> "filter", e |-> Lit(IntV(1)), name |-> "nosuchfilter", args |-> <<>>])
     [] k = "strict" -> Ob(Var(<<117, 110, 100, 101, 102>>))
     \* (a filter of the embedding program declared with a typed slice parameter, given an element that does not convert)
@@ -55,7 +59,12 @@ Bad(k) ==
     [] k = "whenerr" -> [t |-> "case", e |-> Lit(IntV(1)), pre |-> <<>>, whens |-> <<[vals |-> <<[t |-> "filter", e |-> Lit(IntV(1)), name |-> "nosuchfilter", args |-> <<>>]>>, body |-> <<T(<<113>>)>>]>>]
     [] k = "captureinner" -> [t |-> "capture", name |-> <<113>>, body |-> <<T(<<10>>), Ob(DivZero)>>]
 Mention(k) == CASE k = "filtererr" -> "divided_by" [] k = "nofilter" -> "nosuchfilter" [] k = "unknowntag" -> "nosuchtag" [] OTHER -> ""
-HasCause(k) == k \in {"filtererr", "converr", "dateerr", "argerr", "ifcond", "forcoll", "casesubj", "assignerr", "captureinner", "subfail", "typedarg"}
+HasCause(k) == k \in {"filtererr", "converr", "dateerr", "argerr", "ifcond", "forcoll", "casesubj", "assignerr", "captureinner", "subfail", "typedarg",
+                      "optarg1", "optarg2", "optarg3"}
+\* which error Cause returns: the conversion error where a conversion failed, the filter's error where a filter reported one
+CauseKind(k) == CASE k \in {"converr", "dateerr", "argerr", "optarg1", "optarg2", "optarg3"} -> "conv"
+                  [] k \in {"filtererr", "ifcond", "forcoll", "casesubj", "assignerr", "captureinner"} -> "filter"
+                  [] OTHER -> ""
 
 Wrappers == {"if", "for", "case", "capture", "unless"}
 RECURSIVE Shapes(_)
@@ -107,5 +116,5 @@ IdOf(x) == (IF x.dup THEN "dup-" ELSE "") \o x.k \o "-" \o ToString(x.shape) \o 
 EmitCase == st.status # "run" =>
   PrintT(ToJson([id |-> IdOf(c), kind |-> "render", tm |-> "TraceC07", prog |-> ProgOf(c), env |-> <<>>,
                  strict |-> (c.k = "strict"), path |-> PathOf(c), line0 |-> c.line0, usedir |-> TRUE, reline |-> TRUE,
-                 k |-> c.k, parsebad |-> (c.k \in ParseKinds), mention |-> Mention(c.k), wantcause |-> HasCause(c.k)]))
+                 k |-> c.k, parsebad |-> (c.k \in ParseKinds), mention |-> Mention(c.k), wantcause |-> HasCause(c.k), wantcausekind |-> CauseKind(c.k)]))
 =============================================================================
